@@ -122,7 +122,6 @@ async def main(out_path, seed, n_random):
     from qtoggleserver.core import device as core_device
     from qtoggleserver.core.api import auth as core_api_auth
     from qtoggleserver.core.device import attrs as core_device_attrs
-    from qtoggleserver.core import history as core_history
     from qtoggleserver.web import server as web_server
     from tornado.web import Application
 
@@ -154,9 +153,9 @@ async def main(out_path, seed, n_random):
     names = ['settings.frontend.enabled', 'settings.core.sequences_support', 'settings.core.backup_support',
              'settings.system.fwupdate.driver', 'settings.slaves.enabled', 'settings.webhooks.enabled',
              'settings.core.listen_support', 'settings.reverse.enabled', 'settings.debug', 'settings.core.virtual_ports',
-             'is_discover_enabled()', 'system.conf.can_write_conf_file()']
+             'is_discover_enabled()', 'system.conf.can_write_conf_file()', 'settings.core.history_support']
     flags = c09.default_flags(names, '.')
-    flags['history.is_enabled()'] = bool(core_history.is_enabled())
+    flags['persist.is_samples_supported()'] = bool(persist.is_samples_supported())
     flags_on = sorted(n for n, v in flags.items() if v)
 
     tokens = {}
